@@ -595,7 +595,7 @@ impl<'r> Builder<'r> {
                 let (b, _) = if sa { (self.str_lit(), true) } else { let (mut b, mut sb) = self.bytes_expr(pos, depth + 1); while sb { let r = self.bytes_expr(pos, depth + 1); b = r.0; sb = r.1; } (b, false) };
                 (E::Concat(Box::new(a), Box::new(b)), sa)
             }
-            7 if pos == Pos::Datum && depth == 0 && !self.g.prog.policies.is_empty() && self.rng.below(100) < self.cfg.risky_pct => {
+            7 if (pos == Pos::Datum || pos == Pos::Plain) && depth == 0 && !self.g.prog.policies.is_empty() && self.rng.below(100) < self.cfg.risky_pct => {
                 let p = self.policy_pref();
                 self.tag("risky:policy-hash-as-data");
                 let pn = self.g.prog.policies[p].name.clone();
